@@ -74,6 +74,8 @@ func streamFront(seed uint64, n int, driver string) (*Summary, error) {
 	var impls []string
 	var what []string
 	var sharedObj []bool
+	// altOf[i]: index of the line that runs case i with an ABSENT input (known finding D40), or -1
+	var altOf []int
 	distinct := map[string]bool{}
 	envLock := func(kv map[string]string, f func()) {
 		for k, v := range kv {
@@ -98,6 +100,8 @@ func streamFront(seed uint64, n int, driver string) (*Summary, error) {
 		missing := false
 		bigInt := false
 		nested := i%4 == 3
+		// one case in five: the record schema behind a top-level Ptr (every other one with NotNil)
+		ptrRoot := i%5 == 2 && !nested
 		for j := 0; j < nf; j++ {
 			key := keys[j]
 			f := eng.Field{Key: key, GoName: strings.ToUpper(key[:1]) + key[1:]}
@@ -196,6 +200,13 @@ func streamFront(seed uint64, n int, driver string) (*Summary, error) {
 				S: &eng.Node{Kind: "prim", PK: "str", Req: &o, ReqID: g.ID()}}}}
 			schema.Fields = append(schema.Fields, eng.Field{Key: "inner", GoName: "Inner", S: inner})
 		}
+		top := schema
+		if ptrRoot {
+			top = &eng.Node{Kind: "ptr", Elem: schema}
+			if i%10 == 2 {
+				top.NotNil, top.NNID = &eng.TOpts{}, g.ID()
+			}
+		}
 		// ---- renderings ----
 		type rendering struct {
 			name  string
@@ -290,7 +301,7 @@ func streamFront(seed uint64, n int, driver string) (*Summary, error) {
 		}
 		rs = append(rs, rendering{name: "map", tag: "", data: func() any { return goMap.Go() }, input: goMap})
 		// (a JSON integer beyond 2^53 is rounded by the decoder — known finding D32 —, so such records skip the JSON front ends)
-		if len(jsonObj) > 0 && !bigInt {
+		if !bigInt {
 			rs = append(rs, rendering{name: "zjson", tag: "json", data: func() any { return zjson.Decode(strings.NewReader(jsonDoc)) }, input: jsonV})
 			rs = append(rs, rendering{name: "zhttp-json", tag: "json", data: func() any {
 				req := httptest.NewRequest("POST", "/", strings.NewReader(jsonDoc))
@@ -313,7 +324,7 @@ func streamFront(seed uint64, n int, driver string) (*Summary, error) {
 		// the schema does for the next one (C19).
 		shared := i%2 == 0
 		sharedRec := eng.NewRecorder()
-		var sharedSchema = eng.Build(schema, sharedRec)
+		var sharedSchema = eng.Build(top, sharedRec)
 		results := make([]*eng.Result, len(rs))
 		for step := range rs {
 			k := step
@@ -321,13 +332,13 @@ func streamFront(seed uint64, n int, driver string) (*Summary, error) {
 				k = (step + i/2) % len(rs)
 			}
 			rd := rs[k]
-			c := &eng.Case{Mode: "p", Schema: schema, Dest: eng.ZeroD(schema), Input: rd.input, Tag: rd.tag}
+			c := &eng.Case{Mode: "p", Schema: top, Dest: eng.ZeroD(top), Input: rd.input, Tag: rd.tag}
 			rec, zs := sharedRec, sharedSchema
 			if !shared {
 				rec = eng.NewRecorder()
-				zs = eng.Build(schema, rec)
+				zs = eng.Build(top, rec)
 			}
-			rec.Events, rec.Order, rec.OrderPaths, rec.CtxLeak = nil, map[string][]string{}, nil, ""
+			rec.Events, rec.Order, rec.OrderPaths, rec.CtxLeak, rec.Ptrs = nil, map[string][]string{}, nil, "", nil
 			run := func() { results[k] = eng.RunBuiltData(zs, c, rec, rd.data()) }
 			if rd.env != nil {
 				envLock(rd.env, run)
@@ -336,31 +347,52 @@ func streamFront(seed uint64, n int, driver string) (*Summary, error) {
 			}
 		}
 		var norm []string
+		var d40 []bool
+		d40b := false
+		first := len(lines)
 		for k, rd := range rs {
-			c := &eng.Case{ID: len(lines), Mode: "p", Schema: schema, Dest: eng.ZeroD(schema), Input: rd.input, Tag: rd.tag}
+			c := &eng.Case{ID: len(lines), Mode: "p", Schema: top, Dest: eng.ZeroD(top), Input: rd.input, Tag: rd.tag}
 			res := results[k]
 			lines = append(lines, c.Line(res.Order))
 			impls = append(impls, res.Sx(c.ID).String())
 			what = append(what, rd.name)
 			sharedObj = append(sharedObj, shared)
+			altOf = append(altOf, -1)
+			// known finding D40: the empty JSON object at a top-level Ptr schema (candidate; confirmed below against
+			// what the reference semantics gives for an absent input)
+			d40 = append(d40, len(jsonObj) == 0 && rd.tag == "json")
 			// normalised view for the cross-front-end comparison: issues keyed by schema key
-			keymap := map[string]string{}
-			for _, f := range schema.Fields {
-				keymap[tagOf(f, rd.tag)] = f.Key
-			}
-			var parts []string
-			for k, l := range res.Issues {
-				if k == "$first" {
-					continue
+			normParts := func(src string) []string {
+				keymap := map[string]string{}
+				for _, f := range schema.Fields {
+					keymap[tagOf(f, src)] = f.Key
 				}
-				sk := k
-				for tk, key := range keymap {
-					if k == tk || strings.HasPrefix(k, tk+"[") || strings.HasPrefix(k, tk+".") {
-						sk = key + k[len(tk):]
+				var parts []string
+				for k, l := range res.Issues {
+					if k == "$first" {
+						continue
+					}
+					sk := k
+					for tk, key := range keymap {
+						if k == tk || strings.HasPrefix(k, tk+"[") || strings.HasPrefix(k, tk+".") {
+							sk = key + k[len(tk):]
+						}
+					}
+					for _, is := range l {
+						parts = append(parts, sk+":"+is.Code+":"+is.DType)
 					}
 				}
-				for _, is := range l {
-					parts = append(parts, sk+":"+is.Code+":"+is.DType)
+				sort.Strings(parts)
+				return parts
+			}
+			parts := normParts(rd.tag)
+			if d40[k] && !ptrRoot && len(norm) > 0 && strings.Join(parts, ",")+" "+res.Dest.Sx().String() != norm[0] {
+				// known finding D40 (b): the empty JSON record files its issues under the zog tag / schema key of the
+				// field instead of the name in its json tag — taken as such only if reading the keys that way gives
+				// exactly what the Go map gives
+				if alt := normParts("-"); strings.Join(alt, ",")+" "+res.Dest.Sx().String() == norm[0] {
+					parts = alt
+					d40b = true
 				}
 			}
 			sort.Strings(parts)
@@ -376,15 +408,44 @@ func streamFront(seed uint64, n int, driver string) (*Summary, error) {
 				norm = append(norm, strings.Join(parts, ",")+" "+res.Dest.Sx().String())
 			}
 		}
+		for k := range rs {
+			if d40[k] {
+				// (a) Ptr root: the same case with an absent input; (b) Struct root: the same case without a source tag
+				ca := &eng.Case{ID: len(lines), Mode: "p", Schema: top, Dest: eng.ZeroD(top), Input: eng.VNil(), Tag: rs[k].tag}
+				if !ptrRoot {
+					ca.Input, ca.Tag = rs[k].input, ""
+				}
+				altOf[first+k] = len(lines)
+				lines = append(lines, ca.Line(results[k].Order))
+				impls = append(impls, "")
+				what = append(what, "alt")
+				sharedObj = append(sharedObj, false)
+				altOf = append(altOf, -1)
+			}
+		}
+		if ptrRoot {
+			sum.Hist["ptr_root"]++
+		}
+		if len(jsonObj) == 0 {
+			sum.Hist["empty_record"]++
+		}
 		sum.Hist[fmt.Sprintf("fields_%d", len(schema.Fields))]++
+		if d40b {
+			sum.Known["C14"] = appendUnique(sum.Known["C14"], d40Text)
+			sum.Known["C10"] = appendUnique(sum.Known["C10"], d40Text)
+			sum.Hist["known_D40_hits"]++
+		}
 		// (2) cross-front-end agreement
 		ref := norm[0]
 		for k := 1; k < len(norm); k++ {
 			if norm[k] == "" || norm[k] == ref {
 				continue
 			}
-			caseLine := lines[len(lines)-len(rs)]
-			if nested {
+			caseLine := lines[first]
+			if d40[k] && results[k].Dest.K == "p" && results[k].Dest.P == nil {
+				sum.Known["C14"] = appendUnique(sum.Known["C14"], d40Text)
+				sum.Hist["known_D40_hits"]++
+			} else if nested {
 				sum.Known["C14"] = appendUnique(sum.Known["C14"], "D17 nested struct schemas lose the source tag / flat sources (form, query, env) cannot feed nested structs")
 				sum.Known["C10"] = appendUnique(sum.Known["C10"], "D17 nested struct schemas lose the source tag / flat sources (form, query, env) cannot feed nested structs")
 				sum.Hist["known_D17_hits"]++
@@ -392,8 +453,8 @@ func streamFront(seed uint64, n int, driver string) (*Summary, error) {
 				sum.addViolation("C14", Mismatch{Case: caseLine, Impl: rs[k].name + ": " + norm[k], Model: "map: " + ref, What: "front ends disagree on the same record (" + rs[k].name + " vs map)"})
 			}
 		}
-		if (tagged || missing) && !distinct[lines[len(lines)-len(rs)]] {
-			distinct[lines[len(lines)-len(rs)]] = true
+		if (tagged || missing) && !distinct[lines[first]] {
+			distinct[lines[first]] = true
 			sum.Nontrivial++
 		}
 	}
@@ -403,6 +464,9 @@ func streamFront(seed uint64, n int, driver string) (*Summary, error) {
 		return nil, err
 	}
 	for i := range lines {
+		if what[i] == "alt" {
+			continue
+		}
 		sum.Evaluations++
 		sum.Hist["frontend_"+what[i]]++
 		parts := strings.SplitN(models[i], "\t", 2)
@@ -418,6 +482,14 @@ func streamFront(seed uint64, n int, driver string) (*Summary, error) {
 		}
 		ip := iv.issueKeys(true, "code,path,dtype", nil) + " " + iv.dest.String()
 		mp := mv.issueKeys(true, "code,path,dtype", nil) + " " + mv.dest.String()
+		if ip != mp && altOf[i] >= 0 {
+			ap := strings.SplitN(models[altOf[i]], "\t", 2)
+			if av, err := parseRes(ap[len(ap)-1]); err == nil && ip == av.issueKeys(true, "code,path,dtype", nil)+" "+av.dest.String() {
+				sum.Known["C14"] = appendUnique(sum.Known["C14"], d40Text)
+				sum.Hist["known_D40_hits"]++
+				continue
+			}
+		}
 		if ip != mp {
 			props, note := []string{"C14", "C10"}, ""
 			if sharedObj[i] {
